@@ -64,12 +64,9 @@ def build_cases(ctx, stream: str, n: int) -> list[dict]:
 
 
 def attribute(plan: dict, mism: list[str]) -> str | None:
-    f = plan["features"]
-    text = " | ".join(mism)
-    if f["multi_content"] and f["has_query_or_header"] and ("query" in text or "headers" in text):
-        return "F12"
-    if f["multi_content"] and ("unexpected keyword argument" in text or "required positional argument" in text):
-        return "F12"   # the multi-media implementation method makes optional parameters required and omits cookie parameters
+    """The finding a mismatch belongs to.  F11 (cookie parameters never sent), F39 (non-string header values), F62 (optional
+    body of several media types cannot be omitted) and F12 (several media types: query / header / cookie arguments dropped,
+    optional parameters required) are repaired: no defect class of C04 is expected any more - every mismatch is a violation."""
     return None
 
 
